@@ -115,7 +115,7 @@ def completeness_query(gsyms, cfs, basis, D, stats, tag, n0=0, rounds=3):
     mons = monomials(k, D)
     # normal forms modulo a Groebner basis computed by the harness from the reported generators
     if basis:
-        G = sp.groebner(basis, *gsyms, order="grevlex")
+        G = sp.groebner(basis, *gsyms, order="grevlex", domain=sp.QQ)
     rems = []
     for e in mons:
         m = sp.prod([g ** x for g, x in zip(gsyms, e)])
